@@ -358,10 +358,10 @@ def run_case(case):
 def gen_cases(tier, seed):
     q = tier == "quick"
     cases = []
-    for i in range(16 if q else 250):
+    for i in range(16 if q else 1200):
         cases.append({"kind": "tau2", "idx": i, "seed": seed, "how": "distreg" if i % 3 == 0 else "manual", "n": 20000,
                       "draw_seed": (seed * 7919 + i * 31 + 1) % (2 ** 31 - 1), "cost": 6})
-    for i in range(16 if q else 250):
+    for i in range(16 if q else 1200):
         cases.append({"kind": "discrete", "idx": 100000 + i, "seed": seed, "n": 20000,
                       "draw_seed": (seed * 7919 + i * 37 + 5) % (2 ** 31 - 1), "cost": 3})
     return cases
